@@ -60,7 +60,7 @@ proof {
 }
 '''),
         Ins('after_stmt', 'queue.push_back(current_state);', '''
-proof { assert(queue_ok(queue@, 0, 1)); }
+proof { assert(queue_ok(queue@, 0, 1)); lemma_worklist_init(n, reps); assert(transitions@ =~= Set::<Edge>::empty()); assert(accepting_states@ =~= Seq::<(StateSetID, usize)>::empty()); }
 ''', occ=1),
         Replace('E1', 'while let Some(current_state) = queue.pop_front() {', '''loop
     //@label from_nfa.worklist
@@ -84,6 +84,7 @@ proof { assert(queue_ok(queue@, 0, 1)); }
         assert(queue_ok(queue@, c + 1, reps.len() as int)) by {
             assert forall|i: int| 0 <= i < queue@.len() implies (#[trigger] queue@[i]).0 == c + 1 + i by { assert(queue@[i] == q_in[i + 1]); }
         }
+        lemma_ts_weaken(n, transitions@, reps, c, c + 1);
         assert(has_key_for(state_map@, c));
         let kc = choose|kc: BTreeSet<StateID>| #[trigger] state_map@.contains_key(kc) && state_map@[kc].0 == c;
         assert(state_map@[kc] == current_state);
@@ -203,7 +204,7 @@ proof {
 }
 let ghost acc_mid = accepting_states@;
 ''', label='from_nfa.new_state_id'),
-        Ins('after_stmt', 'transitions.insert((old_state_id, cc, new_state_id));', '''
+        Ins('after_stmt', 'transitions.insert($_);', '''
 proof {
     let e0 = (old_state_id, cc, new_state_id);
     assert(old_state_id == StateSetID(c as u32));
@@ -219,15 +220,7 @@ proof {
 ''', label='from_nfa.insert_edge'),
         Ins('block_end', 'while let Some(current_state) = queue.pop_front() {', '''
 proof {
-    assert(trans_complete(n, transitions@, reps, c + 1)) by {
-        assert forall|f: int, cc: CharClassID, tg: StateID| 0 <= f < c + 1 && f < reps.len() && #[trigger] fires(n, reps[f].0 as int, cc, tg) implies edge_present(n, transitions@, reps, f, cc, tg) by {
-            if f == c {
-                assert(ts.contains((cc, tg)));
-                let kk = choose|kk: int| 0 <= kk < ts.len() && ts[kk] == (cc, tg);
-                assert(edge_present(n, transitions@, reps, c, ts[kk].0, ts[kk].1));
-            }
-        }
-    }
+    lemma_complete_step(n, transitions@, reps, c, ts);
     p = p + 1;
 }
 '''),
@@ -286,6 +279,7 @@ proof {
     assert((from, cc, to) == edges[d0]);
     assert(edges.contains(edges[d0]));
     assert(tset.contains((from, cc, to)));
+    lemma_ts_use(n, tset, reps, reps.len() as int, (from, cc, to));
     assert(from.0 < reps.len());
 }
 '''),
@@ -339,7 +333,7 @@ decreases __it3.decrease()->0
         Ins('after', 'for (state, term) in accepting_states {', '''
 let ghost a0 = acc.len() - __it3.remaining().len() - 1;
 let ghost es_in = end_states@;
-proof { assert((state, term) == acc[a0]); assert(state.0 < reps.len() && term == tt); }
+proof { assert((state, term) == acc[a0]); lemma_acc_use(n, acc, tset, reps, a0); assert(state.0 < reps.len() && term == tt); }
 '''),
         Ins('block_end', 'for (state, term) in accepting_states {', '''
 proof {
